@@ -75,8 +75,16 @@ func (s *shardManager) Shards() ([]*shard.Shard, error) {
 		ps[p.Name] = p
 	}
 
+	// one shard per replica of the StatefulSet, whatever the selector returned: a pod that is
+	// missing for the moment is a shard that is not ready (the shards behind it keep their
+	// positions), a pod of another owner that carries the same labels is no shard
+	replicas := len(pods.Items)
+	if s.sts.Spec.Replicas != nil {
+		replicas = int(*s.sts.Spec.Replicas)
+	}
+
 	ret := make([]*shard.Shard, 0)
-	for index := range pods.Items {
+	for index := 0; index < replicas; index++ {
 		p := ps[fmt.Sprintf("%s-%d", s.sts.Name, index)]
 		url := fmt.Sprintf("http://%s:%d", p.Status.PodIP, s.port)
 		ret = append(ret, shard.NewShard(p.Name, url, p.Status.PodIP != "", s.lg.WithField("shard", p.Name)))
